@@ -36,7 +36,7 @@ def norm_src(s):
 
 
 def verus_cmd(path, rlimit):
-    return ["verus", path, "--error-format=json", "--multiple-errors", "64",
+    return ["verus", path, "--edition=2024", "--error-format=json", "--multiple-errors", "64",
             "--output-json", "--time", "--rlimit", str(rlimit)]
 
 
